@@ -39,7 +39,9 @@ CHECKS["C01"] = dict(
           "of the loop itself (Model/JoltLoop.v: _distance_loop, calculate_closest_points, the driver), over the reals and for ARBITRARY sets "
           "given through support mappings: the P/Q/Y row relation and v_len_sq = |dir|^2 are invariants of every execution; the Clipped exit "
           "is sound; the duality-gap lower bound; the two classical GJK lemmas; the no-improvement exit reports the exact distance (partial: "
-          "under the simplex-solver hypotheses that C18 establishes). Tie model/code: the support points the implementation obtained in "
+          "under two hypotheses about the simplex solver - its result is a minimum-norm point of the hull of its rows, the current closest point "
+          "lies in the hull of the current rows - which C18 proves for the line and the non-degenerate triangle arms and REFUTES inside the "
+          "solver's epsilon bands (C18_jolt_refuted); not discharged here). Tie model/code: the support points the implementation obtained in "
           "iteration i are replayed through step i of the model, which must reproduce every search direction, the iteration count, the exit and "
           "(d, a, b); a difference is excused only if the model's own discrete behaviour changes under ~1-10 ulp perturbations of the trace. "
           "NOT proved: accuracy of the relative-progress exit in binary64 (DESIGN section 7). Known finding F-J2 (the Jolt simplex solver's "
@@ -145,19 +147,19 @@ CHECKS["C02"] = dict(
 )
 CHECKS["C06"] = dict(
     category="proof",
-    text=("Machine-checked (Props/C06.v, closed under the global context) about the Gallina model Model/Bvh.v of BoundingVolumeHierarchy / "
+    text=("Machine-checked (Props/C06.v; the generic theorems are closed under the global context, the five theorems over the reals - no AssertionError in update_collider_poses / add_collider in exact arithmetic, real_order_ok, narrow_hypothesis_from_enclosure - use the standard-library real-number axioms) about the Gallina model Model/Bvh.v of BoundingVolumeHierarchy / "
           "self_collision.detect / detect_any / urdf_utils.self_collision_whitelists on top of the proven AABB-tree model, for ALL inputs and "
           "histories: (1) poses_current: after any sequence of add_collider, transform changes, whitelist updates and update_collider_poses ending "
           "with update_collider_poses, the tree holds exactly one leaf per registered collider with its current aabb and payload and every "
           "collider is at the transform manager's current transform (refuted with a witness when one object is registered under two frames); "
           "(2) the three broad-phase queries return exactly the entries / ordered pairs whose current AABBs overlap, without duplicates, minus "
           "whitelisted frames; (3) detect_spec / detect_spec_symmetric / detect_any_spec exactly as the property words them, completeness under "
-          "the named hypothesis narrow_implies_aabb_overlap (C04's corollary); (4) the generated whitelists = own link + last parent + last "
+          "the named hypothesis narrow_implies_aabb_overlap (C04's corollary; false for Ellipsoid colliders in /repo: known finding F9); (4) the generated whitelists = own link + last parent + last "
           "child. Judged per generated input: that the model IS the code - the real classes run on generated URDF chains/trees/stars with "
           "set_joint histories and every answer IN ORDER is compared with the model evaluated by vm_compute, plus an independent all-pairs "
           "brute force oracle. Collider kernels, IEEE rounding and pytransform3d are parameters of the model."),
     design_ref="DESIGN.md section 5, C06",
-    technique="Coq proof (no axioms) of BVH/self-collision exactness over the proven AABB-tree model + order-exact model/implementation correspondence + brute-force oracle",
+    technique="Coq proof of BVH/self-collision exactness (generic theorems without axioms) over the proven AABB-tree model + order-exact model/implementation correspondence + brute-force oracle",
     note=TB + "; pytransform3d (URDF parser, TransformManager) as source of poses; Python dict order = insertion order",
 )
 CHECKS["C12"] = dict(
